@@ -3,9 +3,18 @@
 import json, os, subprocess
 HERE = os.path.dirname(os.path.dirname(os.path.abspath(__file__)))
 CLAIMED = {
-    "C02": ("theorems ws_spec / locate_sound / apply placement invariant over the Lean model (all files, hunks, -F, -l, -R); "
-            "model tied to the code by T1 (exhaustive small scope), T2, T3; oracle: output explained by increasing admissible placements",
-            "5/C02"),
+    "C02": ("theorems ws_spec, lineMatches_spec, locate_sound, locate_insertion, spliceAt_fromFile/sorted/complete, C02_apply over the Lean model "
+            "(all files, all well-formed hunk sequences, every -F, -l, -R, -N/-t/-f, every tty answer stream); model tied to the code by T1 "
+            "(exhaustive small scope), T2, T3; oracle on the implementation: output explained by increasing admissible placements", "5/C02"),
+    "C03": ("theorems locate_complete, locate_least_fuzz, locate_exact, locate_insertion_exact, C03_step; ties T2, T3; oracle: brute-force "
+            "enumeration of all admissible (position, fuzz) pairs per hunk on the implementation's answers", "5/C03"),
+    "C04": ("theorems apply_total, apply_partition, rejected_are_shifted (apply_patch level); tie T3; oracles: no exception for well-formed "
+            "patches, failure count = hunks not applied, reject bytes parsed by an independent strict parser hold exactly those hunks, output "
+            "explained by exactly the hunks reported applied. Driver-level clauses (exit status, reject file on disk) are added by the driver tie when built", "5/C04"),
+    "C14": ("theorems read_write_id, render_lf, render_crlf, render_keep, final_newline, splitLines_* invariants, hunkOutput_sources, "
+            "spliceAt_sources; ties: reader (bytes->lines), T3 in all four modes; oracles: per-line terminator class and final-newline rule", "5/C14"),
+    "C20": ("theorem C20_merge (cppEval of the -D output = new file when defined, = original when not; balanced; nothing rejected) for every valid "
+            "script with terminated, directive-free lines and grouped hunks; tie T3 with -D; oracle: independent Python preprocessor on the output bytes", "5/C20"),
 }
 TODO = {}
 props = [json.loads(l) for l in open(os.path.join(HERE, "properties.jsonl"))]
